@@ -226,6 +226,12 @@ def run_case(concepts, case, spec):
             if r is not RAISED and isinstance(r, list) and k % 5 == 0:
                 r.clear()               # the caller owns the returned list
                 asked.append(list(sub))
+    arg = rng.sample(list(ctx.objects), rng.randint(0, min(len(ctx.objects), 3)))
+    for _ in range(3):                  # one mutable argument object, edited between calls
+        call(ctx.neighbors, arg)
+        arg.append(rng.choice(ctx.objects))
+        if rng.random() < .5:
+            arg.pop(0)
     for sub in asked[:12]:              # the same questions again, later, in another order
         call(ctx.neighbors, tuple(reversed(sub)))
     old = POOL.older(rng)
